@@ -44,6 +44,48 @@ var c19Funcs = []c19Fn{
 	{"auth/api/iam/openid4vp.go", "Wrapper", "validatePresentationNonce"},
 	{"auth/api/iam/openid4vp.go", "", "extractChallenge"},
 	{"auth/api/iam/validation.go", "Wrapper", "validatePresentationAudience"},
+	// ---- entry points that are SAMPLED (or modelled only in part): inventoried so that a new partial operation forces a review
+	{"auth/api/iam/openid4vp.go", "Wrapper", "getClientMetadataFromRequest"},
+	{"auth/api/iam/openid4vp.go", "Wrapper", "getPresentationDefinitionFromRequest"},
+	{"vcr/revocation/statuslist2021_verifier.go", "StatusList2021", "Verify"},
+	{"vcr/revocation/statuslist2021_verifier.go", "StatusList2021", "statusList"},
+	{"vcr/revocation/statuslist2021_verifier.go", "StatusList2021", "update"},
+	{"vcr/revocation/statuslist2021_verifier.go", "StatusList2021", "download"},
+	{"vcr/revocation/statuslist2021_verifier.go", "StatusList2021", "verify"},
+	{"vcr/revocation/statuslist2021_verifier.go", "StatusList2021", "validate"},
+	{"vcr/revocation/bitstring.go", "bitstring", "Scan"},
+	{"vcr/revocation/bitstring.go", "", "expand"},
+	{"vdr/didkey/resolver.go", "Resolver", "Resolve"},
+	{"vdr/didkey/resolver.go", "", "unmarshalEC"},
+	{"vdr/didjwk/resolver.go", "Resolver", "Resolve"},
+	{"vdr/didweb/web.go", "Resolver", "Resolve"},
+	{"vcr/credential/util.go", "", "ResolveSubjectDID"},
+	{"vcr/credential/util.go", "", "PresenterIsCredentialSubject"},
+	{"vcr/credential/util.go", "", "PresentationIssuanceDate"},
+	{"vcr/credential/util.go", "", "PresentationExpirationDate"},
+	{"vcr/credential/util.go", "", "AutoCorrectSelfAttestedCredential"},
+	{"vcr/credential/util.go", "", "FilterOnDIDMethod"},
+	{"vcr/credential/resolver.go", "", "PresentationSigner"},
+	{"vcr/credential/resolver.go", "", "ParseLDProof"},
+	{"vcr/credential/validator.go", "", "validateNutsCredentialID"},
+	{"vcr/verifier/verifier.go", "verifier", "Verify"},
+	{"vcr/verifier/verifier.go", "verifier", "doVerifyVP"},
+	{"crypto/jwx.go", "", "JWTKidAlg"},
+	{"crypto/jwx.go", "", "ParseJWT"},
+	{"crypto/jwx.go", "", "ParseJWS"},
+	{"jsonld/ldutils.go", "LDUtil", "Canonicalize"},
+	{"vdr/didnuts/validators.go", "verificationMethodValidator", "Validate"},
+	{"vdr/didnuts/validators.go", "verificationMethodValidator", "verifyThumbprint"},
+	{"vdr/didnuts/ambassador.go", "ambassador", "findKeyByThumbprint"},
+	{"network/transport/v2/handlers.go", "protocol", "Handle"},
+	{"network/transport/v2/handlers.go", "protocol", "handle"},
+	{"network/transport/v2/handlers.go", "protocol", "handleTransactionPayload"},
+	{"network/transport/v2/handlers.go", "protocol", "handleTransactionPayloadQuery"},
+	{"network/transport/v2/handlers.go", "protocol", "handleTransactionRangeQuery"},
+	{"network/transport/v2/handlers.go", "protocol", "handleGossip"},
+	{"network/transport/v2/handlers.go", "protocol", "handleTransactionListQuery"},
+	{"network/transport/v2/handlers.go", "protocol", "handleState"},
+	{"network/transport/v2/handlers.go", "protocol", "handleTransactionSet"},
 }
 
 func recvName(fd *ast.FuncDecl) string {
@@ -301,6 +343,7 @@ func c19Ops(fd *ast.FuncDecl) []string {
 				}
 			}
 		case *ast.DeferStmt:
+			add("defer", c19Expr(x.Call.Fun))
 			expr(x.Call, false)
 		case *ast.GoStmt:
 			expr(x.Call, false)
